@@ -98,5 +98,19 @@ CLAIMS = {
     note="Trusted: the term interpreter vc/rel.py, the rewrite axioms for copyToSharedArray/createSharedArray/frombuffer, multiprocessing.Pool semantics (initializer "
          "before tasks, each task once), determinism of NumPy/SciPy across processes.",
     technique="relational verification: AST-extracted serial loop body vs worker body over uninterpreted terms + frame (write-set) conditions; bounded schedule exploration for replay"),
+ "C07": dict(
+    text="Proof over exact power series in the step h (the real functions of expmint.py run on Q[[h]]/h^34 scalars, scipy's solve replaced by its "
+         "contract): for each Pade branch 3/5/7/9/13 (13 with 0, 1 and 3 squarings) of expmint and of _expm_SS, E, I and I2 agree with the Taylor series "
+         "of exp(Ah), int exp(At)dt, int t exp(At)dt to the order the Pade degree promises - this pins every literal of the U,V,P,Q and I2 tables (as the "
+         "doubles actually stored), the h factors, the I += I.E / E = E.E squaring recurrences, the exact-inverse and power-series routes of _geti2, for "
+         "general, triangular, nearly triangular, defective and singular 2x2 A; getEPQ1/getEPQ2/getEPQ_pow/getEPQ return the same E, P=(I2/h)B, Q=(I1-I2/h)B "
+         "(order 1) or P=I1 B, Q=0.0 (order 0) for B None / given / half on both sides of the norm switch. SSModel: tustin (with/without prewarp) "
+         "d2c(c2d)=id, c2d(d2c)=id and H_d(z)=H_c(k(z-1)/(z+1)) proved for fully symbolic 2-state models (sympy); zoh/zoha/foh c2d is the hold model of "
+         "x+=Ex+Pu+Qu+ and d2c recovers A=phi diag(log lam/h) phi^-1, B, C, D, proved modularly against getEPQ's and eig's contracts. Branch thresholds, "
+         "the principal-log route and sampled-response equivalence: bounded float checks (100-digit reference).",
+    note="Trusted: vc/pseries.py (Python fractions), sympy, contracts of solve/solve_triangular/lu_factor/lu_solve/eig. Branch selection is forced by the "
+         "harness (theta thresholds, _ell, the 2.0978 switch value and the size of the truncation error are not verified); convergence loops exit at the "
+         "witness h=0.1. Matrices 2x2 (4x4 for half) with fixed rational entries, h a formal indeterminate. Floats are exact rationals; round-off not decided.",
+    technique="real functions executed on exact truncated power series / sympy symbols; Pade order conditions against the Taylor definition; modular contracts for getEPQ/eig; bounded float sweep vs 100-digit sums"),
 }
 NOT_APPLICABLE = {}
